@@ -58,5 +58,27 @@ Theorem C17_monotone_threshold : forall eps cy rc mt m thr thr' (l : list train)
 Proof. exact filter_mono_thr. Qed.
 Print Assumptions C17_monotone_threshold.
 
+From PS Require Lem_MultiAPI2.
+Import Lem_MultiAPI2.
+(* link with the multivariate SPIKE-Sync profile: for a spike time unique to its train the profile entry has multiplicity N-1 and value = the filter's count, so kept iff value/multiplicity > threshold *)
+Theorem C17_count_is_profile_value : forall (eps : R) (cy : bool) (mt m thr : R) (l : list train) (ts te : R) (i k : nat) (d : train * train), (2 <= length l)%nat -> Forall (wtrain ts te) l -> (i < length l)%nat -> let st := nth_train ROps l i in (k < length (tr_spikes st))%nat -> let x := nth k (tr_spikes st) 0 in (forall j : nat, (j < length l)%nat -> j <> i -> ~ In x (tr_spikes (nth_train ROps l j))) -> let kr := nth i (filter_by_spike_sync ROps eps cy false mt m thr l) d in exists (P : list dentry) (v mp : R), spike_sync_profile_multi ROps eps cy false mt m l None = Ok P /\ sum_at ROps x (interior_entries P) = (v, mp) /\ mp = INR (length l - 1) /\ 0 < mp /\ (In x (tr_spikes (fst kr)) <-> thr < v / mp) /\ (In x (tr_spikes (snd kr)) <-> ~ thr < v / mp).
+Proof. exact filter_keep_iff_profile_value. Qed.
+Print Assumptions C17_count_is_profile_value.
+
 Example C17_nonvacuous : Forall (vtrain 0 1) [([1/8; 1/2], 0, 1); ([1/8], 0, 1); ([], 0, 1)].
 Proof. repeat (first [apply Forall_nil | apply Forall_cons]); unfold vtrain; cbn [tr_spikes tr_start tr_end fst snd]; repeat split; try lra; valid_tac. Qed.
+
+(* ---- executed instance (Q, extracted to OCaml and run against /repo) = the real-number functions
+   the theorems above are about: kernel-checked parametricity bridge (Bridge.v).  qL = map Q2R etc. ---- *)
+From Coq Require Import QArith Qreals.
+From PS Require Import Bridge.
+Local Close Scope Q_scope.
+Theorem C17_exec_filter_by_spike_sync_transfer : forall (eps : Q) (cy rc : bool) (mt m thr : Q) (l : list train), map (pmap qTrain qTrain) (filter_by_spike_sync QOps eps cy rc mt m thr l) = filter_by_spike_sync ROps (Q2R eps) cy rc (Q2R mt) (Q2R m) (Q2R thr) (map qTrain l).
+Proof. exact filter_by_spike_sync_transfer. Qed.
+Print Assumptions C17_exec_filter_by_spike_sync_transfer.
+Theorem C17_exec_filter_spec_transfer : forall (mt mrts thr : Q) (l : list (list Q * Q * Q)), map qLL (filter_spec QOps mt mrts thr l) = filter_spec ROps (Q2R mt) (Q2R mrts) (Q2R thr) (map qTrain l).
+Proof. exact filter_spec_transfer. Qed.
+Print Assumptions C17_exec_filter_spec_transfer.
+Theorem C17_exec_single_kernel_transfer : forall (s1 s2 : list Q) (ts te mt mrts : Q), qL (single_kernel QOps s1 s2 ts te mt mrts) = single_kernel ROps (qL s1) (qL s2) (Q2R ts) (Q2R te) (Q2R mt) (Q2R mrts).
+Proof. exact single_kernel_transfer. Qed.
+Print Assumptions C17_exec_single_kernel_transfer.
